@@ -605,12 +605,94 @@ func (a *ownAnalysis) sliceProvOf(e ast.Expr, depth int) *sliceProv {
 				p.fresh = true
 				return p
 			}
+			// a same-package view helper: every return is a (re)slice of one slice parameter;
+			// the result borrows what that argument borrows and is clamped only if every
+			// return is a three-index reslice with max == high (or clampCap)
+			if idx, clamped, ok := a.c.sliceHelperSummary(fn); ok && idx < len(x.Args) {
+				q := a.sliceProvOf(x.Args[idx], depth+1)
+				merge(q)
+				p.clamped = clamped
+				return p
+			}
 		}
 		p.unknown = true
 		return p
 	}
 	p.unknown = true
 	return p
+}
+
+// sliceHelperSummary: fn returns, on every path, a reslice of its idx-th
+// (slice) parameter; clamped reports whether every such return caps the
+// capacity at the view's length.
+func (c *Ctx) sliceHelperSummary(fn *types.Func) (idx int, clamped bool, ok bool) {
+	fd := c.declOf[fn]
+	if fd == nil || fd.Body == nil || fn.Pkg() == nil || !strings.HasPrefix(fn.Pkg().Path(), modPath) {
+		return 0, false, false
+	}
+	sig := fn.Type().(*types.Signature)
+	if sig.Results().Len() != 1 {
+		return 0, false, false
+	}
+	if _, isSlice := sig.Results().At(0).Type().Underlying().(*types.Slice); !isSlice {
+		return 0, false, false
+	}
+	info := c.pkgOf[fd].TypesInfo
+	params := map[types.Object]int{}
+	for i := 0; i < sig.Params().Len(); i++ {
+		params[sig.Params().At(i)] = i
+	}
+	idx = -1
+	clamped = true
+	nret := 0
+	bad := false
+	ast.Inspect(fd.Body, func(n ast.Node) bool {
+		if _, isLit := n.(*ast.FuncLit); isLit {
+			return false
+		}
+		rs, isRet := n.(*ast.ReturnStmt)
+		if !isRet || len(rs.Results) != 1 {
+			return true
+		}
+		nret++
+		e := ast.Unparen(rs.Results[0])
+		thisClamped := false
+		for {
+			switch x := e.(type) {
+			case *ast.SliceExpr:
+				if x.Slice3 && x.Max != nil && x.High != nil && types.ExprString(x.Max) == types.ExprString(x.High) {
+					thisClamped = true
+				}
+				e = ast.Unparen(x.X)
+				continue
+			case *ast.CallExpr:
+				if f := originOf(Callee(info, x)); f != nil && FuncName(f) == "lisp.clampCap" && len(x.Args) == 1 {
+					thisClamped = true
+					e = ast.Unparen(x.Args[0])
+					continue
+				}
+			}
+			break
+		}
+		o := identObj(info, e)
+		pi, isParam := params[o]
+		if o == nil || !isParam {
+			bad = true
+			return true
+		}
+		if idx >= 0 && idx != pi {
+			bad = true
+		}
+		idx = pi
+		if !thisClamped {
+			clamped = false
+		}
+		return true
+	})
+	if bad || nret == 0 || idx < 0 {
+		return 0, false, false
+	}
+	return idx, clamped, true
 }
 
 // guardFacts collects, for the site at loc, facts about *LVal objects that the
